@@ -99,7 +99,12 @@ def parse(src, path):
     variants = []
     for i in range(e0 + 1, e1):
         s = strip_line_comment(lines[i]).strip()
-        if not s or s.startswith("#["):
+        if not s:
+            continue
+        if s.startswith("#["):
+            # only attributes that cannot change which variants exist
+            if not re.match(r"^#\[(doc|allow|deprecated)\b.*\]$", s):
+                fail(path, i + 1, "attribute on an enum variant is outside the supported subset (could be conditional compilation)", lines[i])
             continue
         m = RE_VARIANT.match(s)
         if not m:
